@@ -299,3 +299,232 @@ theorem tryCands_filter (h : Nested) (m : Machine) (t : Trigger) (l : List Trans
       rw [tryCands_cons_skip _ _ _ _ _ hm', ih]
 
 end SMV
+
+namespace SMV
+
+/-! ## Every processed event of every history; every handler
+
+`BehT m act`: the valuation is re-drawn per event — while the trigger with id `i` is processed, callback `cb`
+behaves as `act i cb`. The statement below is about an arbitrary configuration with a non-empty queue, hence
+about every step of every drain of every history (external and nested events alike). -/
+def BehT (m : Machine) (act : Nat → CbId → Act) : Prop :=
+  ∀ cb inv tid st ev, m.behav cb inv { tid := tid, state := st, event := ev } = act tid cb
+
+theorem BehT.beh {m : Machine} {act : Nat → CbId → Act} (B : BehT m act) (t : Trigger) : Beh m t (act t.tid) :=
+  fun cb inv st => B cb inv t.tid st t.event
+
+/-- **C01 (every event of every history, run-to-completion).** Whatever is at the head of the queue — an event
+sent from outside or from inside a callback, after any history — is decided by `choose` on the transitions of
+the state current *at that moment*, with the guard values of that moment. A validator abort or a
+`TransitionNotAllowed` drops what was still queued (C04). -/
+theorem C01_drain_step {m : Machine} {act : Nat → CbId → Act} (B : BehT m act) (c : Cfg) (t : Trigger)
+    (q : List Trigger) (hq : c.queue = t :: q) (hne : (t.event == initialEv) = false) (s : StateId)
+    (hs : c.cur.bind (lookupState m) = some s)
+    (hg : ∀ tr ∈ out m s, ∀ p ∈ tr.conds, (act t.tid p.1).raises = none) :
+    match choose m.truthy (act t.tid) t.event (out m s) with
+    | .abort _ => (drainStep m c).cur = c.cur ∧ (drainStep m c).queue = []
+    | .notAllowed => (drainStep m c).cur = c.cur ∧ (m.allow = false → (drainStep m c).queue = [])
+    | .fire tr => (∀ cb ∈ actionCbs m t.event tr, (act t.tid cb).raises = none) →
+        (drainStep m c).cur = some (stateVal m tr.target) := by
+  have key := C01_trigger (B.beh t) hne { c with queue := q } s hs hg
+  unfold drainStep
+  rw [hq]
+  simp only
+  cases hch : choose m.truthy (act t.tid) t.event (out m s) with
+  | abort x =>
+    rw [hch] at key; simp only at key ⊢
+    generalize trigger nestedRtc m t { c with queue := q } = r at key
+    obtain ⟨c1, r1⟩ := r
+    simp only at key
+    obtain ⟨k1, k2⟩ := key
+    subst k1
+    exact ⟨k2, rfl⟩
+  | notAllowed =>
+    rw [hch] at key; simp only at key ⊢
+    generalize trigger nestedRtc m t { c with queue := q } = r at key
+    obtain ⟨c1, r1⟩ := r
+    simp only at key
+    obtain ⟨k1, k2⟩ := key
+    subst k1
+    by_cases ha : m.allow = true
+    · simp only [ha, if_true]
+      exact ⟨k2, fun h => by simp at h⟩
+    · simp only [ha, Bool.false_eq_true, if_false]
+      exact ⟨k2, by simp⟩
+  | fire tr =>
+    rw [hch] at key; simp only at key ⊢
+    intro hact
+    have k := key hact
+    generalize trigger nestedRtc m t { c with queue := q } = r at k
+    obtain ⟨c1, r1⟩ := r
+    simp only at k
+    obtain ⟨k1, k2⟩ := k
+    subst k1
+    exact k2
+
+/-- … in particular at every point of every drain, however long (`iter (drainStep m) n c`) -/
+theorem C01_every_event {m : Machine} {act : Nat → CbId → Act} (B : BehT m act) (c0 : Cfg) (n : Nat) :
+    let c := iter (drainStep m) n c0
+    ∀ t q, c.queue = t :: q → (t.event == initialEv) = false → ∀ s, c.cur.bind (lookupState m) = some s →
+      (∀ tr ∈ out m s, ∀ p ∈ tr.conds, (act t.tid p.1).raises = none) →
+      match choose m.truthy (act t.tid) t.event (out m s) with
+      | .abort _ => (iter (drainStep m) (n + 1) c0).cur = c.cur
+      | .notAllowed => (iter (drainStep m) (n + 1) c0).cur = c.cur
+      | .fire tr => (∀ cb ∈ actionCbs m t.event tr, (act t.tid cb).raises = none) →
+          (iter (drainStep m) (n + 1) c0).cur = some (stateVal m tr.target) := by
+  intro c t q hq hne s hs hg
+  have hstep : iter (drainStep m) (n + 1) c0 = drainStep m c := by
+    clear hq hne hs hg
+    induction n generalizing c0 with
+    | zero => rfl
+    | succ k ih => exact ih (drainStep m c0)
+  rw [hstep]
+  have key := C01_drain_step B c t q hq hne s hs hg
+  cases hch : choose m.truthy (act t.tid) t.event (out m s) with
+  | abort x => rw [hch] at key; exact key.1
+  | notAllowed => rw [hch] at key; exact key.1
+  | fire tr => rw [hch] at key; exact key
+
+/-! ### Any handler (`rtc=False`, both engine kinds) when callbacks send no events
+
+With callbacks that do not call `send` the handler is never consulted, so the selection theorem holds verbatim
+for the depth-first (`rtc=False`) processing mode. (With nested sends under `rtc=False` the nested event runs in
+the middle of the outer transition and the final state is the *outer* target only if nothing is sent from
+`enter`/`after`; that case is covered by the correspondence, not by this theorem.) -/
+section
+variable {m : Machine} {t : Trigger} {act : CbId → Act} (B : Beh m t act) (hs : ∀ cb, (act cb).sends = [])
+include B hs
+
+theorem runCb_handler_irrel (h : Nested) (x : Ctx) (hx : x.t = t) (ph : Phase) (cb : CbId) :
+    runCb h m x ph cb = runCb nestedRtc m x ph cb := by
+  funext c
+  simp only [runCb, EM.bind_apply, EM.get, EM.modify]
+  have hb : m.behav cb c.nextInv { tid := x.t.tid, state := c.cur, event := x.t.event } = act cb := by
+    rw [hx]; exact B cb _ _
+  rw [hb, hs cb]
+  simp only [sendsLoop]
+
+theorem runGroup_handler_irrel (h : Nested) (x : Ctx) (hx : x.t = t) (ph : Phase) (cs : List CbId) :
+    runGroup h m x ph cs = runGroup nestedRtc m x ph cs := by
+  induction cs with
+  | nil => rfl
+  | cons cb cs ih => simp only [runGroup, runCb_handler_irrel B hs h x hx, ih]
+
+theorem runConds_handler_irrel (h : Nested) (x : Ctx) (hx : x.t = t) (cs : List (CbId × Bool)) :
+    runConds h m x cs = runConds nestedRtc m x cs := by
+  induction cs with
+  | nil => rfl
+  | cons p cs ih =>
+    obtain ⟨cb, ex⟩ := p
+    simp only [runConds, runCb_handler_irrel B hs h x hx, ih]
+
+theorem activate_handler_irrel (h : Nested) (tr : Transn) :
+    activate h m t tr = activate nestedRtc m t tr := by
+  have hg := fun ph cs => runGroup_handler_irrel B hs h { t := t, src := some tr.source, tgt := tr.target } rfl ph cs
+  have hc := fun cs => runConds_handler_irrel B hs h { t := t, src := some tr.source, tgt := tr.target } rfl cs
+  simp only [activate, activatePre, activatePost, hg, hc]
+
+theorem tryCands_handler_irrel (h : Nested) (trs : List Transn) :
+    tryCands h m t trs = tryCands nestedRtc m t trs := by
+  induction trs with
+  | nil => rfl
+  | cons tr rest ih => simp only [tryCands, activate_handler_irrel B hs h, ih]
+
+theorem trigger_handler_irrel (h : Nested) (hne : (t.event == initialEv) = false) :
+    trigger h m t = trigger nestedRtc m t := by
+  funext c
+  simp only [trigger, EM.bind_apply, EM.get, hne, Bool.false_and, Bool.false_eq_true, if_false,
+    tryCands_handler_irrel B hs h]
+
+/-- **C01 (one event, any processing mode).** `C01_trigger` for an arbitrary handler — in particular the
+depth-first handler `sendNR m fuel` of `rtc=False` — when callbacks send no events. -/
+theorem C01_trigger_any_handler (h : Nested) (hne : (t.event == initialEv) = false) (c : Cfg) (s : StateId)
+    (hcur : c.cur.bind (lookupState m) = some s)
+    (hg : ∀ tr ∈ out m s, ∀ p ∈ tr.conds, (act p.1).raises = none) :
+    match choose m.truthy act t.event (out m s) with
+    | .abort x => (trigger h m t c).2 = .error (.user x) ∧ (trigger h m t c).1.cur = c.cur
+    | .notAllowed =>
+        (trigger h m t c).2 = (if m.allow then .ok (some .none) else .error (.notAllowed t.event s)) ∧
+        (trigger h m t c).1.cur = c.cur
+    | .fire tr => (∀ cb ∈ actionCbs m t.event tr, (act cb).raises = none) →
+        (trigger h m t c).2 = .ok (some (firedResult m act t.event tr)) ∧
+        (trigger h m t c).1.cur = some (stateVal m tr.target) := by
+  rw [trigger_handler_irrel B hs h hne]
+  exact C01_trigger B hne c s hcur hg
+end
+
+/-- **C01 (`rtc=False`, external send).** An event sent from outside to a machine in depth-first mode whose
+callbacks send nothing: decided by `choose`, result and final state as documented. -/
+theorem C01_send_nonrtc {m : Machine} {act : CbId → Act} (fuel : Nat) (kind : Kind) (ev : EventId) (c : Cfg)
+    (hq : c.queue = []) (B : Beh m { tid := c.nextTid, event := ev } act) (hs : ∀ cb, (act cb).sends = [])
+    (hne : (ev == initialEv) = false) (s : StateId) (hcur : c.cur.bind (lookupState m) = some s)
+    (hg : ∀ tr ∈ out m s, ∀ p ∈ tr.conds, (act p.1).raises = none) :
+    match choose m.truthy act ev (out m s) with
+    | .abort x => (send m { rtc := false, kind := kind } fuel ev c).2 = .error (.user x) ∧
+                  (send m { rtc := false, kind := kind } fuel ev c).1.cur = c.cur
+    | .notAllowed =>
+        (send m { rtc := false, kind := kind } fuel ev c).2 =
+          (if m.allow then .ok .none else .error (.notAllowed ev s)) ∧
+        (send m { rtc := false, kind := kind } fuel ev c).1.cur = c.cur
+    | .fire tr => (∀ cb ∈ actionCbs m ev tr, (act cb).raises = none) →
+        (send m { rtc := false, kind := kind } fuel ev c).2 = .ok (firedResult m act ev tr) ∧
+        (send m { rtc := false, kind := kind } fuel ev c).1.cur = some (stateVal m tr.target) := by
+  have key := C01_trigger_any_handler (t := { tid := c.nextTid, event := ev }) B hs (sendNR m fuel) hne
+    { c with queue := [], nextTid := c.nextTid + 1 } s hcur hg
+  have hsend : send m { rtc := false, kind := kind } fuel ev c =
+      popTrigger (sendNR m fuel) m { c with queue := [{ tid := c.nextTid, event := ev }], nextTid := c.nextTid + 1 } := by
+    simp [send, process, EM.bind_apply, enqueue, EM.modify, hq]
+  rw [hsend]
+  simp only [popTrigger]
+  cases hch : choose m.truthy act ev (out m s) with
+  | abort x =>
+    rw [hch] at key; simp only at key ⊢
+    generalize trigger (sendNR m fuel) m _ _ = r at key
+    obtain ⟨c1, r1⟩ := r
+    obtain ⟨k1, k2⟩ := key
+    simp only at k1 k2; subst k1
+    exact ⟨rfl, k2⟩
+  | notAllowed =>
+    rw [hch] at key; simp only at key ⊢
+    generalize trigger (sendNR m fuel) m _ _ = r at key
+    obtain ⟨c1, r1⟩ := r
+    obtain ⟨k1, k2⟩ := key
+    simp only at k1 k2; subst k1
+    by_cases ha : m.allow = true
+    · simp only [ha, if_true]; exact ⟨trivial, k2⟩
+    · simp only [ha, Bool.false_eq_true, if_false]; exact ⟨trivial, k2⟩
+  | fire tr =>
+    rw [hch] at key; simp only at key ⊢
+    intro hact
+    have k := key hact
+    generalize trigger (sendNR m fuel) m _ _ = r at k
+    obtain ⟨c1, r1⟩ := r
+    obtain ⟨k1, k2⟩ := k
+    simp only at k1 k2; subst k1
+    exact ⟨rfl, k2⟩
+
+end SMV
+
+namespace SMV
+/-! ### Non-vacuity: a concrete machine meeting the hypotheses, three candidates, the second fires -/
+section Example
+/-- state 0 --ev 5--> {1 (guard cb 1), 2 (guard cb 2), 0 (no guard)}; guard 1 is falsy, guard 2 truthy -/
+def exTrs : List Transn :=
+  [ { source := 0, target := 1, events := [5], conds := [(1, true)] },
+    { source := 0, target := 2, events := [5, 6], conds := [(2, true)], validators := [3] },
+    { source := 0, target := 0, events := [5] } ]
+def exAct : CbId → Act := fun cb => { ret := if cb == 1 then 0 else 1 }
+def exM : Machine :=
+  { states := [{ value := 10, initial := true, trans := exTrs }, { value := 11 }, { value := 12 }],
+    behav := fun cb _ _ => exAct cb, truthy := fun v => v != 0 }
+
+example : BehT exM (fun _ => exAct) := fun _ _ _ _ _ => rfl
+example : ∀ cb, (exAct cb).sends = [] := fun _ => rfl
+example : (match choose exM.truthy exAct 5 (out exM 0) with | .fire tr => tr.target | _ => 99) = 2 := by decide
+example : (match choose exM.truthy exAct 6 (out exM 0) with | .fire tr => tr.target | _ => 99) = 2 := by decide
+example : (match choose exM.truthy exAct 7 (out exM 0) with | .notAllowed => 1 | _ => 0) = 1 := by decide
+/-- the engine on that machine: event 5 from state value 10 ends in state value 12 (both processing modes) -/
+example : (send exM { rtc := true } 5 5 { cur := some 10 }).1.cur = some 12 := by decide
+example : (send exM { rtc := false } 5 5 { cur := some 10 }).1.cur = some 12 := by decide
+end Example
+end SMV
